@@ -53,7 +53,7 @@ for d in sorted(glob.glob(os.path.join(seed_dir, 'C*'))):
         rc1, out1 = sh([PY, demo], cwd=d, env=env_repo, timeout=300)
         rec['demo_changed'] = rc1
         rec['confirmed'] = rc0 == 0 and rc1 != 0 and rec['tests_green']
-        envc = dict(os.environ, VERIF_REPO=repo)
+        envc = dict(os.environ, VERIF_REPO=repo, VERIF_EVIDENCE_DIR=os.path.join(os.environ.get('TMPDIR', '/tmp'), 'evidence_scratch'))
         for tier in ('quick', 'thorough'):
             t0 = time.time()
             rcc, outc = sh([os.path.join(ROOT, 'check'), pid, '--tier', tier], cwd=ROOT, env=envc, timeout=3000)
